@@ -230,6 +230,11 @@ def check(pid, tier, seed):
     return rc
 
 
+# names of the re-opened sections: plain ones, and (every second file) names that themselves begin and end with a bracket
+# (file line "[[a]]": the name the listings return is "[a]", next to a section "a" with the same keys)
+BLK = [["a", "b", "a b", "c"], ["a", "[a]", "b", "[b]", "[a b]"]]
+
+
 def check_random_single(tool, exe, rnd, n, base, verdict):
     """single absolute files with random conventional content and --delimiters / --comment choices (incl. the
     backslash escapes the tool translates): `econftool show` against what the LIBRARY delivers for the same file and
@@ -246,7 +251,7 @@ def check_random_single(tool, exe, rnd, n, base, verdict):
             # sections that are closed and opened again (keys of one section in several blocks, group-less keys first)
             f = {"lines": [], "abs": []}
             nk = 0
-            for blk in [None] * rnd.randint(0, 1) + [rnd.choice(["a", "b", "a b", "c"]) for _ in range(rnd.randint(3, 6))]:
+            for blk in [None] * rnd.randint(0, 1) + [rnd.choice(BLK[len(items) // 4 % 2]) for _ in range(rnd.randint(3, 6))]:
                 if blk is not None:
                     f["lines"].append(core.codes("[%s]" % blk))
                     f["abs"].append({"t": "header", "key": core.codes(blk)})
